@@ -193,6 +193,30 @@ def corpus():
             return m.to_er7()
         calls.append(("build %s" % v, build))
         calls.append(("segment %s" % v, lambda v=v: parse_segment("PID|1||5^^^Z~6||A^B|||F", version=v).to_er7()))
+        # calls that must be refused for their arguments, whatever other threads are doing
+        bad_ec = {"FIELD": "|", "COMPONENT": "^", "SUBCOMPONENT": "^", "REPETITION": "~", "ESCAPE": "\\", "SEGMENT": "\r", "GROUP": "\r"}
+        no_esc = {"FIELD": "|", "COMPONENT": "^", "SUBCOMPONENT": "&", "REPETITION": "~", "SEGMENT": "\r", "GROUP": "\r"}
+
+        def refused(fn):
+            def run_():
+                try:
+                    return "accepted:" + str(fn().to_er7())
+                except Exception as ex:
+                    return "exc:" + exc_name(ex)
+            return run_
+        from hl7apy.parser import parse_field, parse_component
+        calls.append(("field with duplicated delimiters %s" % v, refused(lambda v=v: parse_field("a^b", name="PID_5", version=v, encoding_chars=dict(bad_ec)))))
+        calls.append(("component without escape character %s" % v, refused(lambda v=v: parse_component("a&b", name="CX_4", version=v, encoding_chars=dict(no_esc)))))
+        calls.append(("segment with duplicated delimiters %s" % v, refused(lambda v=v: parse_segment("PID|1", version=v, encoding_chars=dict(bad_ec)))))
+        xec = {"FIELD": "!", "COMPONENT": "$", "SUBCOMPONENT": "@", "REPETITION": "*", "ESCAPE": "?", "SEGMENT": "\r", "GROUP": "\r"}
+
+        def build_x(v=v):
+            m = Message("ADT_A01", version=v, encoding_chars=dict(xec))
+            m.msh.msh_7 = "20200101"
+            m.pid.pid_5 = "DOE$JANE"
+            m.pid.pid_3.cx_1 = "77"
+            return m.to_er7() + "#" + parse_message(m.to_er7()).to_er7()
+        calls.append(("build with own delimiters %s" % v, build_x))
         for (dt, val, _, lvl) in JOB_POOL[:8]:
             def fac(dt=dt, val=val, v=v, lvl=lvl):
                 try:
